@@ -93,7 +93,64 @@ class C15(Prop):
                 "ev_nomatch": rng.chance(1, 2), "imports": rng.choice([[], ["math"]]), "ev_import": rng.chance(1, 2),
                 "ev_limit": False, "limit": 1000, "frag": None}
 
+    def gen_rich(self, rng):
+        """Rule files of the C07 dialect (text / hex / regex strings with every modifier) without global rules and
+        without match-limit events, i.e. outside the two recorded classes: no model prediction; the prefix property
+        is checked on the implementation's own outputs at every interruption point."""
+        from . import c07
+        c = json.loads(json.dumps(c07.gen_case(rng), default=lambda b: list(b)))
+        for r in c["rules"]:
+            r["global"] = False
+        return {"kind": "rich", "c07": c, "mem": rng.choice(c["inputs"]), "full": rng.chance(1, 3), "nm": rng.chance(1, 4),
+                "cb": rng.chance(1, 2), "ev_nomatch": rng.chance(1, 2)}
+
+    def term_rich(self, ctx, case, out):
+        if not isinstance(out, dict) or "full" not in out:
+            if isinstance(out, dict) and "compile_error" in out:
+                ctx.count("rich: compile_error")
+                return (True, True, 0)
+            return (False, False, 0)
+        full = out["full"]
+        def evkey(e):
+            r = e.get("rule")
+            return (e["ev"], r["ns"], r["name"]) if isinstance(r, dict) else (e["ev"], json.dumps(e, sort_keys=True))
+        fe = [evkey(e) for e in full.get("events", [])]
+        fr = [(r["ns"], r["name"], r["matched"]) for r in full.get("rules", [])]
+        if full.get("error"):
+            ctx.notes.append("rich: the uninterrupted scan fails: %s" % full.get("error"))
+            return (False, False, 0)
+        ctx.count("rich: interruption points", len(out["runs"]))
+        for r in out["runs"]:
+            o = r["out"]
+            oe = [evkey(e) for e in o.get("events", [])]
+            orr = [(x["ns"], x["name"], x["matched"]) for x in o.get("rules", [])]
+            bad = None
+            if not r["next_ok"]:
+                bad = "the scan following the interruption differs from the first one"
+            elif not r.get("once_same", True):
+                bad = "firing the timeout at this check only gives another outcome"
+            elif r["kind"] == "abort":
+                k = r["at"]
+                if k <= len(fe):
+                    if o.get("error") != "CallbackAbort" or oe != fe[:k]:
+                        bad = "abort at event %d: error %s, events are not the first %d of the complete scan" % (k, o.get("error"), k)
+                elif o.get("error") or oe != fe:
+                    bad = "abort point beyond the last event changes the outcome"
+            else:
+                if o.get("error") == "Timeout":
+                    if oe != fe[:len(oe)] or orr != fr[:len(orr)]:
+                        bad = "timeout at check %d: what was reported is not a prefix of the complete scan" % r["at"]
+                    ctx.count("rich: timeout interrupted")
+                elif o.get("error") or oe != fe or orr != fr:
+                    bad = "timeout point beyond the last check changes the outcome"
+            if bad:
+                ctx.notes.append("rich rule file: " + bad)
+                return (False, False, 0)
+        return (True, True, 0)
+
     def gen_case(self, rng):
+        if rng.chance(1, 6):
+            return self.gen_rich(rng)
         if rng.chance(1, 5):
             return self.gen_decidable_case(rng)
         raw = rng.chance(1, 4)
@@ -134,6 +191,12 @@ class C15(Prop):
         return out
 
     def harness_case(self, case):
+        if case.get("kind") == "rich":
+            from . import c07
+            ev = 1 | (2 if case["ev_nomatch"] else 0)
+            return {"rules": c07.harness_rules(case["c07"]), "api": "callback" if case["cb"] else "list",
+                    "params": {"compute_full_matches": case["full"], "include_not_matched": case["nm"], "events": ev},
+                    "input": {"mem": case["mem"]}, "max_points": 80}
         ev = 1 | (2 if case["ev_nomatch"] else 0) | (4 if case.get("ev_import") else 0) | (16 if case.get("ev_limit") else 0)
         params = {"compute_full_matches": case["full"], "include_not_matched": case["nm"], "events": ev,
                   "string_max_nb_matches": case.get("limit", 1000)}
@@ -155,6 +218,8 @@ class C15(Prop):
         return outs
 
     def term(self, ctx, case, out):
+        if case.get("kind") == "rich":
+            return self.term_rich(ctx, case, out)
         rs = case["rs"]
         if not isinstance(out, dict) or "full" not in out:
             if isinstance(out, dict) and "compile_error" in out:
@@ -211,6 +276,11 @@ class C15(Prop):
         return None
 
     def sample(self, case, out):
+        if case.get("kind") == "rich":
+            from . import c07
+            return {"rules": [(x["ns"], x["src"]) for x in c07.harness_rules(case["c07"])], "mem": case["mem"],
+                    "config": {k: case.get(k) for k in ("full", "nm", "cb", "ev_nomatch")},
+                    "points": len((out or {}).get("runs", []))}
         return {"rules": [(x["ns"], x["src"]) for x in ruleset.harness_rules(case["rs"], case.get("imports", ()))],
                 "mem": case["mem"],
                 "config": {k: case.get(k) for k in ("full", "nm", "cb", "ev_nomatch", "ev_import", "ev_limit", "limit",
